@@ -140,7 +140,10 @@ func TestC06(t *testing.T) {
 		case 2:
 			cons = &state.Consumer{OnProgress: func(float64) {}}
 		}
-		zipPath := filepath.Join(dir, "build.zip")
+		// (where the archive lies is nobody's business either)
+		zipDir := filepath.Join(dir, rapid.SampledFrom([]string{".", ".", "50% zips", "a b#c"}).Draw(rt, "archivedir"))
+		Must(os.MkdirAll(zipDir, 0o755), "mkdir archive dir")
+		zipPath := filepath.Join(zipDir, "build.zip")
 		zipOf(pristine, zipPath)
 		// (the directory's own name is nobody's business: percent signs, spaces, colons)
 		target := filepath.Join(dir, rapid.SampledFrom([]string{"target", "target", "target", "100% Orange Juice", "50%", "1:x y", "a#b?c"}).Draw(rt, "targetname"))
